@@ -344,6 +344,12 @@ def main(tier):
             else:
                 tasks.append(((2 if k <= 1 else 1, K, None if k <= 1 else ["ctx", "minusplus"],
                                coloured), label, ov))
+    # delta's own resolution of the three header styles (what `delta --color-only` without further options uses: all
+    # raw) and each of them alone: two sections here too - what one header handler leaves undone shows at the next line
+    own = {"commit-style": None, "file-style": None, "hunk-header-style": None}
+    for label, ov in [("own-header-styles", own)] + [("own-" + k_, {k_: None}) for k_ in sorted(own)]:
+        for coloured in (False, True):
+            tasks.append(((2, K, ["ctx", "minusplus", "nonl"] if tier == "quick" else None, coloured), label, ov))
     if tier == "thorough":
         tasks.append(((3, K, ["ctx", "minus"], False), "default", {}))
     for t in tasks:
